@@ -54,7 +54,10 @@ pub fn check_obs(rep: &mut Report, ctx: &serde_json::Value, phonetic: bool, type
                 }
             }
             if !ongoing && pres.iter().any(|p| p.as_deref().map(|x| !x.is_empty()).unwrap_or(false)) {
-                rep.violation("C06", "preedit-without-session", format!("non-empty pre-edit but no ongoing session: {}", ctx), ctx.clone());
+                // known shape: fixed method, the key value was dropped (the sign U+09C4 in a vowel-forming position), so the
+                // composition is empty, yet the raw key text (English item / emoticon) is offered
+                let cls = if !phonetic && aux.is_empty() { "empty-composition-offers-raw-keys" } else { "preedit-without-session" };
+                rep.violation("C06", cls, format!("non-empty pre-edit but no ongoing session: {}", ctx), ctx.clone());
             }
         }
     }
